@@ -322,6 +322,8 @@ def cases(tier, seed=0):
   for m in models:
     for nr in mnr:
       cs.append(Case("potable %s nr=%d" % (m, nr), potable_case, model_name=m, nr=nr))
+  from checks import fpgrid
+  cs.append(Case("fp grid LAMMPS", fpgrid.grid_case, target="LAMMPS", nr=41))
   for name in (("in-modifier", "calls-other-forms") if tier == "quick" else ("in-modifier", "calls-other-forms", "three-level", "positional", "if-and-compare")):
     cs.append(Case("potable custom %s" % name, custom_table_case, name=name, nr=4))
   return cs
